@@ -31,6 +31,8 @@ for t in "$@"; do
     octosql-race)  (cd $REPO && go build -race -tags verif -o $VERIF_BIN/octosql-race .) ;;
     vharness)      (cd $H && go build -tags verif -o $VERIF_BIN/vharness ./cmd/vharness) ;;
     vharness-race) (cd $H && go build -race -tags verif -o $VERIF_BIN/vharness-race ./cmd/vharness) ;;
+    vharness-dev:*) p="${t#vharness-dev:}"; (cd $H && go build -tags "verif verif_only verif_only_$p" -o $VERIF_BIN/vharness-$p ./cmd/vharness) ;;
+    vharness-race-dev:*) p="${t#vharness-race-dev:}"; (cd $H && go build -race -tags "verif verif_only verif_only_$p" -o $VERIF_BIN/vharness-race-$p ./cmd/vharness) ;;
     testplugin)    (cd $H && go build -tags verif -o $VERIF_BIN/testplugin ./cmd/testplugin) ;;
     *) echo "unknown target $t" >&2; exit 3 ;;
   esac
